@@ -421,3 +421,58 @@ def extra_units():
     from contracts import c05
     from pyvc.units import share
     return [share(c05.run_tagging_tasks, PROP)]
+
+
+# ------------------------------------------------------------------------------ run_multiome_tagging: a stale success marker
+# A previous run may have left "Reached end. All ok!" next to a complete output.  The new run removes that output: the
+# marker must say 'unfinished' before the old output (or its index) disappears, whatever fails in between.
+def prologue_block(f):
+    return blocks.stmts_between(
+        f, lambda st: isinstance(st, ast.If) and "args.o.endswith('.bam')" in ast.unparse(st.test),
+        lambda st: isinstance(st, ast.For) and 'remove_existing_path' in ast.unparse(st.target))
+
+
+def prologue_monitor(eng, node, fr):
+    g = eng.ghost
+    ok = g['status'] != OK or (g['output_exists'] and g['index_exists'])
+    eng.check('monitor.success_status_implies_the_output_and_its_index_exist', bool(ok), kind='monitor',
+              info={'line': getattr(node, 'lineno', None), 'status': g['status'], 'output_exists': g['output_exists']})
+
+
+def prologue_setup(eng):
+    eng.ghost = {'status': OK, 'output_exists': True, 'index_exists': True}      # what a successful earlier run left behind
+    eng.monitor = prologue_monitor
+    E = externals.EXTRA
+
+    def write_status(e, f, args, kwargs, node):
+        fault(e, 'write_status')
+        e.ghost['status'] = args[1]
+    eng.loader.call_hooks['singlecellmultiomics.universalBamTagger.bamtagmultiome.write_status'] = write_status
+    for q, label in (('singlecellmultiomics.universalBamTagger.bamtagmultiome.sam_to_bam', 'sam_to_bam'),
+                     ('singlecellmultiomics.bamProcessing.bamFunctions.sam_to_bam', 'sam_to_bam'),
+                     ('singlecellmultiomics.universalBamTagger.bamtagmultiome.verify_and_fix_bam', 'verify_and_fix_bam'),
+                     ('singlecellmultiomics.bamProcessing.bamFunctions.verify_and_fix_bam', 'verify_and_fix_bam')):
+        eng.loader.call_hooks[q] = (lambda lab: (lambda e, f, a, k, n: (fault(e, lab), (None, None))[1]))(label)
+    E['os.path.exists'] = lambda e, a, k, n: e.ghost['output_exists'] if a[0] == 'out.bam' else e.ghost['index_exists']
+
+    def remove(e, a, k, n):
+        fault(e, 'remove')
+        e.ghost['output_exists' if a[0] == 'out.bam' else 'index_exists'] = False
+    E['os.remove'] = remove
+
+
+def prologue_args(eng, name):
+    return Obj('Namespace', {'o': 'out.bam', 'bamin': 'in.bam', 'ignore_bam_issues': fresh(BOOL, 'ignore_bam_issues'),
+                             'every_fragment_as_molecule': False, 'skip_contig': None})
+
+
+prologue = Contract(
+    PROP, FT + '::run_multiome_tagging', name='run_multiome_tagging[old output removed only after the marker says unfinished]',
+    block=prologue_block,
+    params={'args': prologue_args},
+    setup=prologue_setup,
+    raises={'Exception': 'True'},
+    assumptions=['an earlier successful run left the success marker and a complete output; verify_and_fix_bam, the status '
+                 'write and os.remove may fail at every call; the input is a BAM file'],
+)
+UNITS.append(prologue)
